@@ -261,6 +261,8 @@ class Builder:
                 v = self.pick(vs)
                 return Index(Var(v.name, t=v.ty), self.index_for(v, depth), t=INT)
             return self.int_lit()
+        if k == 'len' and self.chance(8):
+            return Len(ArrLit([], t=arr(EMPTY, True)), t=INT)
         if k == 'len':
             vs = self.vars_of(lambda v: is_arr(v.ty) or v.ty == STRING)
             if vs:
@@ -302,6 +304,15 @@ class Builder:
             lit_ = self.mixed_literal(BYTE, depth)
             if lit_ is not None:
                 return Index(lit_, Lit('int', self.integer(0, len(lit_.elems) - 1), None, t=INT), t=BYTE)
+        if k == 'index' and 'strings' in self.F and self.chance(25):
+            # indexing a string constant directly (literal or const global): its length is a compile-time fact
+            consts = self.vars_of(lambda v: v.ty == STRING and v.const and v.static_len)
+            if consts and self.chance(50):
+                v = self.pick(consts)
+                return Index(Var(v.name, t=STRING), self.index_for(v, depth), t=BYTE)
+            data = bytes(self.pick([97, 98, 48, 57, 65, 32, 200, 0, 92, 34]) for _ in range(self.integer(1, 6)))
+            fake = VarInfo('', STRING, const=True, static_len=len(data))
+            return Index(Lit('string', data, None, t=STRING), self.index_for(fake, depth), t=BYTE)
         if k == 'index':
             vs = self.vars_of(lambda v: (is_arr(v.ty) and v.ty[1] == BYTE) or v.ty == STRING)
             # string indexing needs a static length to stay in bounds: only arrays and known strings
@@ -329,6 +340,8 @@ class Builder:
         if 'arrays' in self.F:
             opts.append((4, 'array'))
         k = self.weighted(opts)
+        if k == 'array' and self.chance(12):
+            return ArrLit([], t=arr(EMPTY, True))
         if k == 'array':
             vs = self.vars_of(lambda v: is_arr(v.ty))
             if vs:
@@ -510,6 +523,10 @@ class Builder:
             e = self.expr(self.pick(tys))
         if e.t == BYTE and self.chance(50):
             e = Is(e, INT, t=INT)
+        if e.t == INT and self.chance(15) and any(isinstance(n_, (Var, Call, Index)) for n_ in walk(e)):
+            # numbers with more digits than a word has bytes (write(int) builds its digits below its frame)
+            e = Bin('+', Bin('*', Paren(e, t=INT), Lit('int', self.pick([100, 1000, 10000 if self.ws > 2 else 1000]), None, t=INT), t=INT),
+                    Lit('int', self.integer(100, 999), None, t=INT), t=INT)
         if self.chance(50):
             return [ExprStmt(Call('writeln', [e], t=EMPTY))]
         return [ExprStmt(Call('write', [e], t=EMPTY)), ExprStmt(Call('write', [Lit('char', 32, None, t=BYTE)], t=EMPTY))]
@@ -620,6 +637,15 @@ class Builder:
                    Block([Assign(Index(Var(name, t=ty), kv, t=el), val)]))
         out.append(fill)
         self.declare(VarInfo(name, ty, const=True, static_len=n))
+        if n and n > 0 and el in (INT, BYTE, STRING) and self.chance(35):
+            nb = self.fresh('a')
+            nel = self.pick([INT, BYTE])
+            nty = arr(nel, False)
+            elems = [self.coercing(nel, 1) for _ in range(self.integer(1, 4))]
+            out.append(Decl(nty, True, nb, ArrLit(elems, t=nty)))
+            self.declare(VarInfo(nb, nty, const=True, static_len=len(elems)))
+            last = Index(Var(name, t=ty), Lit('int', n - 1, None, t=INT), t=el)
+            out += self.probe(Is(last, INT, t=INT) if el == BYTE else last)
         return out
 
     def assign_stmt(self):
@@ -675,12 +701,39 @@ class Builder:
             if self.stmt_budget <= 0:
                 break
             stmts += self.stmt()
+        if tail is None and 'tt' in self.F and (self.in_try or self.flavor == '!') and not self.in_spec \
+                and self.preempts < self.size['max_preempts'] and self.chance(12):
+            # a block that ends in a preempt which always leaves: whether the block's own cleanup runs depends
+            # on whether the preempt is taken
+            self.preempts += 1
+            if self.cur_func is not None:
+                self.cur_func.preemptive = True
+            exits = [Return(None if self.cur_ret == EMPTY else self.coercing(self.cur_ret, 1))] if self.cur_func is not None else []
+            if self.loop_depth > 0:
+                exits += [Break(), Continue()]
+            exits.append(ExprStmt(Call('!is_defeat', [], t=EMPTY)))
+            stmts.append(Preempt(Block(self.probe(Lit('string', b'<px>', None, t=STRING)) + [self.pick(exits)])))
         if tail is not None:
             # extra statements generated while the block's own scope is still visible
             tail(stmts)
         if new_scope:
             self.scopes.pop()
         return Block(stmts)
+
+    def defeat_cond(self):
+        """Argument of !truth_is_defeat: every shape the lowering special-cases (comparison, not comparison,
+        or-chains, not over a value, constants) plus general bool expressions."""
+        k = self.integer(0, 9)
+        cmp_ = lambda: Bin(self.pick(['<', '<=', '>', '>=', '==', '!=']), self.num_expr(1), self.num_expr(1), t=BOOL)   # noqa
+        if k <= 1:
+            return Un('not', cmp_(), t=BOOL)
+        if k == 2:
+            return Bin('or', cmp_(), Un('not', cmp_(), t=BOOL), t=BOOL)
+        if k == 3:
+            return Un('not', self.truthy_operand(1), t=BOOL)
+        if k == 4:
+            return cmp_()
+        return self.bool_expr(2)
 
     def cond_expr(self):
         if self.chance(80):
@@ -776,7 +829,7 @@ class Builder:
                 if self.chance(60):
                     return [If(self.cond_expr(), Block([ExprStmt(Call('!is_defeat', [], t=EMPTY))]), None)]
                 return [ExprStmt(Call('!is_defeat', [], t=EMPTY))]
-            return [ExprStmt(Call('!truth_is_defeat', [self.bool_expr(2)], t=EMPTY))]
+            return [ExprStmt(Call('!truth_is_defeat', [self.defeat_cond()], t=EMPTY))]
         raise AssertionError(k)
 
     def for_loop(self):
@@ -839,7 +892,7 @@ class Builder:
                 if self.chance(50):
                     stmts.append(ExprStmt(Call('!is_defeat', [], t=EMPTY)))
                 else:
-                    stmts.append(ExprStmt(Call('!truth_is_defeat', [self.bool_expr(2)], t=EMPTY)))
+                    stmts.append(ExprStmt(Call('!truth_is_defeat', [self.defeat_cond()], t=EMPTY)))
 
         body = self.block(self.integer(1, 4), tail=tail)
         self.in_try, self.preempts, self.try_kind = old
